@@ -93,6 +93,17 @@ CHECKS = {
 
 BUILT = sys.argv[1:] if len(sys.argv) > 1 else None
 
+SESSION4 = {
+ "C01": " The block's own transactions are offered to CheckTx on the test replicas while the block executes, and a third of the blocks carry signature-bit-flipped copies of mempool transactions.",
+ "C04": " A long-shared-prefix probe (internal node labels of 130 to 8100 bytes) asks for lookup proofs of every key in both proof versions and for the full iteration.",
+ "C06": " Every eighth history restores a checkpoint of a later version over the finalized earlier versions, finalizes it and prunes below.",
+ "C10": " A history that ends with the election-precondition message is a violation when the recomputed precondition holds (enough eligible validator entities with a wide margin); VRF epochs in which only non-validator nodes prove, governance-deposit and roothash-limit parameter changes, node descriptors with redundant runtime versions and nodes serving two runtimes are part of the histories.",
+ "C11": " App level: every commitment of an accepted transaction must verify under its stated node key; failure-indicating votes with corrupted signatures are submitted in the name of members that have not voted.",
+ "C15": " Level 2 also refuses a rise of another delegator's redeemable debonding value by more than the worth of one share through a foreign transaction (shares minted below the pool's price).",
+ "C17": " The runtime ownership index is compared with the owners of the registered and suspended runtimes at every block boundary; compute nodes sign up for a second runtime while active.",
+}
+
+
 def main():
     props = [json.loads(l) for l in open(os.path.join(ROOT, "properties.jsonl"))]
     built_file = os.path.join(ROOT, "tools", "built.txt")
@@ -123,6 +134,7 @@ def main():
     for p in props:
         pid = p["id"]
         cat, tech, text, note, ref = CHECKS[pid]
+        text += SESSION4.get(pid, "")
         if pid in built and os.path.isdir(os.path.join(ROOT, "checks", pid.lower())):
             m["checks"].append({
                 "property_id": pid,
